@@ -11,6 +11,7 @@ def run(ctx):
     files = {}
     files.update(core.vmon_files())
     files.update(core.dir_files('harness/c02', 'zzverif/c02'))
+    files.update(core.dir_files('harness/c02/pz', 'zzverif/c02/pz'))
     b = ctx.build('c02', core.MODPATH + '/zzverif/c02', files)
     nh, shards, exlen = ('40', 4, '3') if not ctx.thorough else ('200', 16, '4')
     ctx.children(b, shards, run='TestC02$', env={'VERIF_C02_HIST': nh}, timeout=1800)
